@@ -365,6 +365,57 @@ pub fn tls_plain(st: &State, t: &mut Toks) -> PResult<String> {
     out
 }
 
+/// TLSHIST <idle ms>: one TLS server.  It sits idle for a while; then four peers fail at connection setup one after the other (plain
+/// text where a ClientHello is due, from the same source address); then a verifying client with a trusted, matching server is
+/// served: what the server does with a connection is decided by its configuration, not by how long it sat or by what other
+/// peers did before.
+pub fn tls_history(st: &State, t: &mut Toks) -> PResult<String> {
+    let dict = st.dicts.get("b").ok_or_else(|| "dict b missing".to_string())?.clone();
+    let idle = t.u64()?;
+    let rt = rt();
+    let out = rt.block_on(async move {
+        let seen = Arc::new(Mutex::new(Vec::new()));
+        let addr = start_server(Some("match"), Arc::clone(&dict), Arc::clone(&seen)).await?;
+        tokio::time::sleep(Duration::from_millis(idle)).await;
+        let mut o = String::from("TLSHIST");
+        let mut rounds = Vec::new();
+        for round in 0..2 {
+            if round == 1 {
+                for _ in 0..4 {
+                    if let Ok(mut s) = TcpStream::connect(addr).await {
+                        let _ = s.write_all(&request(&dict, "plain-text-peer", 5)).await;
+                        let mut b = [0u8; 64];
+                        let _ = tokio::time::timeout(Duration::from_millis(300), s.read(&mut b)).await;
+                    }
+                }
+            }
+            let mut client = DiameterClient::new(&format!("localhost:{}", addr.port()), DiameterClientConfig { use_tls: true, verify_cert: true });
+            let r = match tokio::time::timeout(Duration::from_millis(2500), client.connect()).await {
+                Ok(Ok(mut h)) => {
+                    let d2 = Arc::clone(&dict);
+                    tokio::spawn(async move { DiameterClient::handle(&mut h, d2).await; });
+                    let mut req = DiameterMessage::new(CommandCode::CreditControl, ApplicationId::CreditControl, 0x80, 60 + round, 1, Arc::clone(&dict));
+                    req.add_avp(263, None, M, UTF8String::new(&format!("hist-{}", round)).into());
+                    match tokio::time::timeout(Duration::from_secs(3), client.send_message(req)).await {
+                        Ok(Ok(fut)) => match tokio::time::timeout(Duration::from_millis(2500), fut).await {
+                            Ok(Ok(_)) => "ok",
+                            _ => "ok-noanswer",
+                        },
+                        _ => "ok-sendfailed",
+                    }
+                }
+                Ok(Err(_)) => "refused",
+                Err(_) => "timeout",
+            };
+            rounds.push(r);
+        }
+        let _ = write!(o, " first={} after_bad_peers={}", rounds[0], rounds[1]);
+        Ok::<String, String>(o)
+    });
+    rt.shutdown_timeout(Duration::from_millis(200));
+    out
+}
+
 /// TLSROT: ONE verifying client object over three connect() calls while the trust file it is pointed at changes: the CA that
 /// issued the server's certificate is in it, then is not, then is again.  Each connect() is judged by the trust store as it is
 /// at that moment.
@@ -381,7 +432,9 @@ pub fn tls_rotate(st: &State, _t: &mut Toks) -> PResult<String> {
     let tmp2 = tmp.clone();
     let out = rt.block_on(async move {
         let seen = Arc::new(Mutex::new(Vec::new()));
-        let addr = start_server(Some("match"), Arc::clone(&dict), Arc::clone(&seen)).await?;
+        // (the server's certificate names DNS:localhost and nothing else: the client must verify against the name it was given,
+        // on every connect())
+        let addr = start_server(Some("dnsonly"), Arc::clone(&dict), Arc::clone(&seen)).await?;
         let mut client = DiameterClient::new(&format!("localhost:{}", addr.port()), DiameterClientConfig { use_tls: true, verify_cert: true });
         let mut o = String::from("TLSROT");
         for (i, trust) in [&with_ca, &without_ca, &with_ca].iter().enumerate() {
@@ -512,6 +565,31 @@ async fn faulty_peer(addr: std::net::SocketAddr, tls: bool, dict: Arc<Dictionary
                         f.extend_from_slice(&[0, 0, 1, 200, 0x40, (l >> 16) as u8, (l >> 8) as u8, l as u8]);   // 456 Multiple-Services-Credit-Control (Grouped)
                     }
                     let _ = c.write_all(&f).await;
+                }
+                "vendor-zero" => {
+                    // a request in which a base AVP (Origin-Host, 264) carries the V flag and Vendor-Id 0: not what the dictionary
+                    // defines (refused) - and no reason to refuse Origin-Host WITHOUT a vendor id from anybody afterwards
+                    let mut f = vec![1u8, 0, 0, 0, 0x80, 0, 1, 16, 0, 0, 0, 4, 0, 0, 0, 7, 0, 0, 0, 8];
+                    f.extend_from_slice(&[0, 0, 1, 8, 0xc0, 0, 0, 16, 0, 0, 0, 0, b'h', b'.', b'e', b'x']);
+                    let n = f.len();
+                    f[1] = (n >> 16) as u8; f[2] = (n >> 8) as u8; f[3] = n as u8;
+                    let _ = c.write_all(&f).await;
+                }
+                "nest-30" => {
+                    // eight pipelined small frames, each a chain of 30 nested Grouped AVPs (legal: the limit is 32)
+                    let levels = 30usize;
+                    let mut one = Vec::new();
+                    let total = 20 + 8 * levels + 12;
+                    one.extend_from_slice(&[1, 0, (total >> 8) as u8, total as u8, 0x80, 0, 1, 16, 0, 0, 0, 4, 0, 0, 0, 1, 0, 0, 0, 2]);
+                    for k in 0..levels {
+                        let l = 8 * (levels - k) + 12;
+                        one.extend_from_slice(&[0, 0, 1, 200, 0x40, 0, (l >> 8) as u8, l as u8]);
+                    }
+                    one.extend_from_slice(&[0, 0, 1, 176, 0x40, 0, 0, 12, 0, 0, 0, 9]);      // 432 Rating-Group, Unsigned32
+                    let mut all = Vec::new();
+                    for _ in 0..8 { all.extend_from_slice(&one); }
+                    let _ = c.write_all(&all).await;
+                    tokio::time::sleep(hold).await;
                 }
                 "handler-panic" => { let _ = c.write_all(&request(&dict, "PANIC-now", 2)).await; }
                 "handler-panic-fmt" => { let _ = c.write_all(&request(&dict, "PANICF-now", 2)).await; }
